@@ -295,7 +295,7 @@ TMP = "\x01"
 
 
 def str_ok(s):
-    return s == s.strip() and "{" not in s and TMP not in s
+    return s == s.strip() and "{" not in s
 
 
 def all_default(t, v):
@@ -304,7 +304,7 @@ def all_default(t, v):
 
 def representable(t, v, depth=0, in_list=False):
     """mirror of Props.C07 Representable (layout independent):
-    strings trimmed, template free, no U+0001; inside lists no blank string, no empty inner list,
+    strings trimmed, template free; inside lists no blank string, no empty inner list,
     no all-default record; inside sub-records a blank string must be the default (it is the last
     element of its key/value pair); untyped lists: at most two levels, no blank, not empty unless
     default; floats finite."""
